@@ -552,10 +552,11 @@ def run_timeline(pair, rng, variant, opts):
             tr.round = su.sel - 1
         elif cp == "sel":
             tr.round = su.sel
-        timeline_setters(tr, su, rng)
-        gated_probes(tr, variant, su, rng)
         if cp == "conf" and tr.round >= su.conf:
             tr.call(10, "confirm", [1], **su.pay(su.price))
+            tr.dump()
+        timeline_setters(tr, su, rng)
+        gated_probes(tr, variant, su, rng)
     # selection sub-steps
     tr.round = max(tr.round, su.sel)
     tr.call(STRANGER, "filter", budget=0)
